@@ -16,7 +16,7 @@
     types/src/row_namespace_data.rs   from_raw / verify               rndFromRaw / rndVerify(Unfixed)
     types/src/namespace_data.rs       from_raw / verify               ndFromRaw / ndVerify(Unfixed)
     types/src/byzantine.rs            TryFrom<RawBadEncoding…>        befpFromRaw
-                                      FraudProof::validate            befpValidate / befpValidateUnfixed
+                                      FraudProof::validate            befpValidate (current) / befpValidateNmtFixed / befpValidateUnfixed
     leopard-codec 0.2.0 src/lib.rs    encode / reconstruct (guards)   leoEncode / leoReconstruct, ceilPow2
     node/src/p2p/header_ex.rs         parse_header_request/response   hxParseRequest / hxReadResponses
     node/src/p2p/shrex/pool_tracker.rs EdsNotification::deserialize_and_validate   edsNotification
